@@ -9,6 +9,9 @@ ACTS = [("announce", m) for m in ("ok", "dupidx", "zeroidx", "thr0", "thrbig", "
        [("ctlemptyout", None)] + [("ctlmalformed", k) for k in range(15)] + [("ctlabort", 0), ("ctlabort", 1), ("peerabort", 0)]
 
 
+HOSTILE_EPS = ["hugeport", "port65536", "port0", "noport", "emptyport", "neg", "alpha", "colons", "long", "nul", "v6", "space"]
+
+
 class Scripter:
     def __init__(self, rng):
         self.rng, self.peer = rng, 2
@@ -55,6 +58,12 @@ class Scripter:
                 lines.append(self.line("ctlabort", self.rng.randrange(2)))
             elif op == "peerabort":
                 lines.append(self.line("peerabort", 0))
+            elif op == "annassign":      # the announcer is always peer 60: "the" session of the model
+                lines.append("announce c=%d m=ok p=60 assign=1 ep=%s%s" % (a["c"], "ok" if a["ep"] == "ok" else self.rng.choice(HOSTILE_EPS), " sock=1" if sock else ""))
+            elif op == "peerdrop":
+                lines.append("peerdrop p=60")
+            elif op == "ticks":
+                lines.append("ticks n=%d ms=%d" % (self.rng.choice([3, 12, 30]), self.rng.choice([700, 1500, 2500])))
             else:
                 lines.append(self.line("ctlmalformed", self.rng.randrange(15)))
         return lines
@@ -114,10 +123,11 @@ def run(chk):
     thorough = chk.tier == "thorough"
     r = vlib.mc("NodeInputs", "MC_NodeInputs.cfg", workers=2, timeout=300)
     chk.add_model("NodeInputs as coded (index validation, guarded key reconstruction, guarded control handler): C35_NoThrow", r)
-    for cfg in ("dev_noguard", "dev_nocontrolguard", "dev_sigpipe", "dev_unsafedecode"):
+    for cfg in ("dev_noguard", "dev_nocontrolguard", "dev_sigpipe", "dev_unsafedecode", "dev_endpointthrows"):
         vlib.mc("NodeInputs", "MC_NodeInputs_%s.cfg" % cfg, expect_violation="C35_NoThrow", workers=2, timeout=300)
     vlib.mc("NodeInputs", "MC_NodeInputs_reach_poisonchunk.cfg", expect_violation="Reach_PoisonThenChunk", workers=2, timeout=300)
     vlib.mc("NodeInputs", "MC_NodeInputs_reach_poisonfetch.cfg", expect_violation="Reach_PoisonHeldThenFetch", workers=2, timeout=300)
+    vlib.mc("NodeInputs", "MC_NodeInputs_reach_endpoint.cfg", expect_violation="Reach_HostileEndpointParsed", workers=2, timeout=300)
     # sequences are taken from the model WITHOUT index validation: they contain the poison-then-trigger histories
     rg, hists = vlib.dump_hists("NodeInputs", "MC_NodeInputs_gen.cfg", workers=2, timeout=300)
     chk.add_model("NodeInputs without index validation (sequence generator: every reachable cache/held state)", rg)
@@ -141,7 +151,7 @@ def run(chk):
     beh.append(["reset"] + ["prehs k=%d" % k for k in range(2, NW, step)] + ["prehs k=0 lenoverride=4294967295", "prehs k=0 lenoverride=0", "prehs k=1 lenoverride=70000"])
     # attacker-chosen endpoint texts in otherwise valid announces (with a shard assigned, so that a fetch is pending), the announcer's
     # session then ends, and the daemon's loop keeps ticking: the node falls back to the advertised endpoint at a fetch retry
-    EPS = ["hugeport", "port65536", "port0", "noport", "emptyport", "neg", "alpha", "colons", "long", "nul", "v6", "space", "ok"]
+    EPS = HOSTILE_EPS + ["ok"]
     for k, ep in enumerate(EPS):
         beh.append(["reset", "announce c=%d m=ok p=%d assign=1 ep=%s" % (1 + k % 3, 11 + k, ep), "peerdrop p=%d" % (11 + k), "ticks n=12 ms=1500",
                     "announce c=%d m=ok p=%d assign=1 ep=%s sock=1" % (2 + k % 2, 31 + k, ep), "ticks n=3 ms=700", "peerdrop p=%d" % (31 + k), "ticks n=40 ms=2000", "other k=0 p=5"])
